@@ -8,7 +8,7 @@ from pathlib import Path
 from . import driver as D
 
 SIZES_ALIGNS = [(s, a) for s in (1, 2, 3, 4, 5, 7, 8, 12, 16, 24) for a in (1, 2, 4, 8, 16) if s % a == 0]
-KINDS = ['trivial', 'tr_declared', 'non_tr', 'throwing_move', 'opted_out', 'throwing_assign']
+KINDS = ['trivial', 'tr_declared', 'non_tr', 'throwing_move', 'opted_out', 'throwing_assign', 'tr_throwing_assign', 'throwing_swap']
 PAIRS = [('trivial', 'trivial'), ('trivial', 'non_tr'), ('tr_declared', 'trivial'), ('opted_out', 'trivial'), ('tr_declared', 'tr_declared')]
 N_FIXED = list(range(0, 11)) + [15, 16, 17, 31, 32, 33, 40, 255, 256, 65535, 65536]
 PTR = 8
@@ -42,6 +42,13 @@ template <int S, int A> struct ThrowingMove { Bytes<S, A> d;
 template <int S, int A> struct ThrowingAssign { Bytes<S, A> d;
   ThrowingAssign() {} ThrowingAssign(const ThrowingAssign &o) : d(o.d) {} ThrowingAssign(ThrowingAssign &&o) noexcept : d(o.d) {}
   ThrowingAssign &operator=(const ThrowingAssign &o) { d = o.d; return *this; } ThrowingAssign &operator=(ThrowingAssign &&o) noexcept(false) { d = o.d; return *this; } ~ThrowingAssign() {} };
+template <int S, int A> struct TrThrowingAssign { using trivially_relocatable = std::true_type; Bytes<S, A> d;
+  TrThrowingAssign() {} TrThrowingAssign(const TrThrowingAssign &o) : d(o.d) {} TrThrowingAssign(TrThrowingAssign &&o) noexcept : d(o.d) {}
+  TrThrowingAssign &operator=(const TrThrowingAssign &o) { d = o.d; return *this; } TrThrowingAssign &operator=(TrThrowingAssign &&o) noexcept(false) { d = o.d; return *this; } ~TrThrowingAssign() {} };
+template <int S, int A> struct ThrowingSwap { Bytes<S, A> d;
+  ThrowingSwap() {} ThrowingSwap(const ThrowingSwap &o) : d(o.d) {} ThrowingSwap(ThrowingSwap &&o) noexcept : d(o.d) {}
+  ThrowingSwap &operator=(const ThrowingSwap &o) { d = o.d; return *this; } ThrowingSwap &operator=(ThrowingSwap &&o) noexcept { d = o.d; return *this; } ~ThrowingSwap() {}
+  friend void swap(ThrowingSwap &a, ThrowingSwap &b) noexcept(false) { Bytes<S, A> t = a.d; a.d = b.d; b.d = t; } };
 template <int S, int A> struct OptedOut { using trivially_relocatable = std::false_type; Bytes<S, A> d; };
 template <class V> struct SwapNoexcept { static const bool value = noexcept(std::declval<V &>().swap(std::declval<V &>())); };
 template <class T> struct TrOf { static const bool value = amc::is_trivially_relocatable<T>::value; };
@@ -73,7 +80,8 @@ static void row_set(const char *id) {
 #endif
 '''
 
-CXX_KIND = {'trivial': 'Trivial', 'tr_declared': 'TrDeclared', 'non_tr': 'NonTr', 'throwing_move': 'ThrowingMove', 'opted_out': 'OptedOut', 'throwing_assign': 'ThrowingAssign'}
+CXX_KIND = {'trivial': 'Trivial', 'tr_declared': 'TrDeclared', 'non_tr': 'NonTr', 'throwing_move': 'ThrowingMove', 'opted_out': 'OptedOut', 'throwing_assign': 'ThrowingAssign',
+            'tr_throwing_assign': 'TrThrowingAssign', 'throwing_swap': 'ThrowingSwap'}
 
 
 def tname(t):
@@ -106,7 +114,7 @@ def t_align(t):
 def t_tr(t):
     if t[0] == 'pair':
         return t_tr(t[1]) and t_tr(t[2])
-    return t[0] in ('trivial', 'tr_declared')
+    return t[0] in ('trivial', 'tr_declared', 'tr_throwing_assign')
 
 
 def t_trivially_destructible(t):
@@ -118,13 +126,19 @@ def t_trivially_destructible(t):
 def t_nothrow_move(t):  # move construction and move assignment
     if t[0] == 'pair':
         return t_nothrow_move(t[1]) and t_nothrow_move(t[2])
-    return t[0] not in ('throwing_move', 'throwing_assign')
+    return t[0] not in ('throwing_move', 'throwing_assign', 'tr_throwing_assign')
 
 
 def t_nothrow_move_ctor(t):
     if t[0] == 'pair':
         return t_nothrow_move_ctor(t[1]) and t_nothrow_move_ctor(t[2])
     return t[0] != 'throwing_move'
+
+
+def t_nothrow_swap(t):  # swap(T&, T&) found by ADL, or std::swap (nothrow when both moves are)
+    if t[0] == 'pair':
+        return t_nothrow_swap(t[1]) and t_nothrow_swap(t[2])
+    return t[0] != 'throwing_swap' and t_nothrow_move(t)
 
 
 def align_up(x, a):
@@ -140,11 +154,13 @@ def expect_dyn(t, n, vec_size):
         e['sizeofSV_max'] = align_up(vec_size + n * s, max(a, PTR))
     e['nmc_required'] = int(n == 0 or t_tr(t) or t_nothrow_move_ctor(t))
     e['nma_required'] = int(n == 0 or t_tr(t) or t_nothrow_move(t))
-    e['nsw_required'] = int(n == 0 or t_nothrow_move(t))
+    e['nsw_required'] = int(n == 0 or (t_nothrow_move_ctor(t) and t_nothrow_swap(t)))
+    # the object holds two size words and either a pointer or the N element slots, whichever is larger
+    e['sizeofSV_min'] = 2 * 4 + max(PTR, n * s)
     # the other direction, only where the operation would run a throwing element operation inside a noexcept function
     e['nmc_forbidden'] = int(n > 0 and not t_tr(t) and not t_nothrow_move_ctor(t))
     e['nma_forbidden'] = int(n > 0 and not t_tr(t) and not t_nothrow_move(t))
-    e['nsw_forbidden'] = int(n > 0 and not t_nothrow_move_ctor(t))
+    e['nsw_forbidden'] = int(n > 0 and (not t_nothrow_move_ctor(t) or t[0] == 'throwing_swap'))
     e['trTypedef'] = int(True if n == 0 else t_tr(t))
     e['trFlatSet'] = e['trTypedef']
     return e
@@ -153,9 +169,9 @@ def expect_dyn(t, n, vec_size):
 def expect_fcv(t, n):
     st = 1 if n <= 255 else 2 if n <= 65535 else 4 if n <= 4294967295 else 8
     return {'tdF': int(t_trivially_destructible(t)), 'stBytes': st, 'stUnsigned': 1, 'nmc_required': int(t_tr(t) or t_nothrow_move_ctor(t)),
-            'nma_required': int(t_tr(t) or t_nothrow_move(t)), 'nsw_required': int(t_nothrow_move(t)), 'trTypedef': int(t_tr(t)), 'sizeofT': t_size(t),
+            'nma_required': int(t_tr(t) or t_nothrow_move(t)), 'nsw_required': int(t_nothrow_move_ctor(t) and t_nothrow_swap(t)), 'trTypedef': int(t_tr(t)), 'sizeofT': t_size(t),
             'nmc_forbidden': int(n > 0 and not t_tr(t) and not t_nothrow_move_ctor(t)), 'nma_forbidden': int(n > 0 and not t_tr(t) and not t_nothrow_move(t)),
-            'nsw_forbidden': int(n > 0 and not t_nothrow_move_ctor(t))}
+            'nsw_forbidden': int(n > 0 and (not t_nothrow_move_ctor(t) or t[0] == 'throwing_swap'))}
 
 
 def all_types():
@@ -237,6 +253,8 @@ def compare(std, rows, table):
                 bad.append((rid, 'c++%s: %s is %d, the statement implies %d' % (std, k, d[k], e[k])))
         if d['sizeofSV'] > e['sizeofSV_max']:
             bad.append((rid, 'c++%s: sizeof(SmallVector<T,%d>)=%d exceeds the bound %d (sizeof(vector<T>)=%d, sizeof(T)=%d)' % (std, n, d['sizeofSV'], e['sizeofSV_max'], d['sizeofVec'], d['sizeofT'])))
+        if d['sizeofSV'] < e['sizeofSV_min']:
+            bad.append((rid, 'c++%s: sizeof(SmallVector<T,%d>)=%d cannot hold two size words and %d elements of %d bytes inline' % (std, n, d['sizeofSV'], n, d['sizeofT'])))
         for k, what in (('nmc', 'move construction'), ('nma', 'move assignment'), ('nsw', 'swap')):
             if e[k + '_required'] and not d[k]:
                 bad.append((rid, 'c++%s: %s of SmallVector<T,%d> must be noexcept under the documented condition but is not' % (std, what, n)))
